@@ -108,4 +108,14 @@ CHECKS = {
         trusted_base=TB,
         assumptions=[],
     ),
+    "C15": dict(
+        packs=["c15"], level="other",
+        explanation="R15.1 on every path of Text::lines the string measured for alignment is the string yielded for drawing/boxing; R15.2 complete baseline_offset table; R15.3 draw_string/draw_whitespace subtract (0, baseline_offset) and add it back on every successful return path, measure_string predicts position + (width, 0); "
+                    "R15.4 alignment table (Left/Right/Center forms over next_position measured at zero), one line_height() advance per split item on every path, LineHeight::to_absolute table, Text::line_height wiring.",
+        claim="Decides the table/wiring clauses of text layout for every alignment, baseline and line-height variant; equality of summed advances (draw = measure on x, chaining) is arithmetic and not decided.",
+        note="Necessary conditions; equivalent-but-different arithmetic is reported as undecided.",
+        technique="per-path origin trees (decision extraction) over MIR compared with specification tables",
+        trusted_base=TB,
+        assumptions=[],
+    ),
 }
